@@ -7,9 +7,9 @@ from harness import core
 from harness.checks import routerlib as rl
 
 CLAUSES = {
-    'C01': {'Resolve404', 'Route', 'Params'},
-    'C02': {'Resolve404', 'Method', 'Allow'},
-    'C11': {'Resolve404', 'Route', 'Params', 'Method', 'Allow', 'Hooks', 'IndexAgree'},
+    'C01': {'Resolve404', 'Route', 'Params', 'Outcome'},
+    'C02': {'Resolve404', 'Method', 'Allow', 'Outcome'},
+    'C11': {'Resolve404', 'Route', 'Params', 'Method', 'Allow', 'Hooks', 'IndexAgree', 'Outcome'},
 }
 VERBS = ['GET', 'HEAD', 'POST', 'DELETE', 'get', 'Head']
 TOKEN = rl.TOKEN
@@ -27,7 +27,7 @@ def norm_r(r):
             'meths': sorted(r['meths']), 'name': r['name']}
 
 
-def run_history(rng, ops, probes, verbs, nprobe, e2e=0, last_nprobe=None):
+def run_history(rng, ops, probes, verbs, nprobe, e2e=0, last_nprobe=None, last_e2e=None):
     """Apply ops to a fresh real router; after each op record state and sampled probe answers."""
     rr = rl.RealRouter(rng)
     out = []
@@ -35,6 +35,8 @@ def run_history(rng, ops, probes, verbs, nprobe, e2e=0, last_nprobe=None):
     for idx, op in enumerate(ops):
         if last_nprobe is not None and idx == len(ops) - 1:
             nprobe = last_nprobe
+        if last_e2e is not None and idx == len(ops) - 1:
+            e2e = last_e2e
         o = blank_op(**op)
         o['r'] = norm_r(o['r'])
         o['outcome'] = rr.apply(o)
@@ -278,8 +280,8 @@ def run(chk, pid):
     res = core.parallel(jobs, max_workers=3)
     chk.exhaustive = True
     wl = res[1] + res[2]
-    if not thorough and len(wl) > 450:
-        wl = rng.sample(res[1], min(len(res[1]), 300)) + res[2][:150]
+    if not thorough and len(wl) > 1700:
+        wl = rng.sample(res[1], min(len(res[1]), 1500)) + res[2][:150]
     # 2. spec -> code: TLC histories on the real router
     traces = []
     e2e_bad = []
@@ -292,7 +294,7 @@ def run(chk, pid):
             o = dict(o)
             o['flavour'] = rng.randrange(12)
             ops.append(o)
-        t, bad = run_history(rng, ops, probes, ['GET', 'HEAD', 'POST', 'DELETE'], 40, e2e=2)
+        t, bad = run_history(rng, ops, probes, ['GET', 'HEAD', 'POST', 'DELETE'], 0, e2e=0, last_nprobe=60, last_e2e=3)
         traces.append(t)
         e2e_bad += bad
         chk.count(1, ('tlc', json.dumps([strip_op(o) for o in t])[:400]))
@@ -336,8 +338,12 @@ def run(chk, pid):
                                ['add', 'add', 'add', 'remove_rule', 'remove_name', 'remove_prefix', 'remove_method', 'add_hook', 'add_hook'])
         # avoid two different names for one pattern unless C01 explores it on purpose
         ops2 = []
+        hookpats = [o['r']['pat'] for o in ops if o['op'] in ('add_hook', 'remove_hook')]
         for o in ops:
             if o['op'] == 'remove_obj?':
+                continue
+            # prefix-wildcard removal is specified for routes only: not on prefixes with hooks beneath
+            if o['op'] == 'remove_prefix' and any(h[:len(o['pre'])] == o['pre'] for h in hookpats):
                 continue
             if 'flavour' not in o:
                 o['flavour'] = rng.randrange(12)
